@@ -608,6 +608,93 @@ func vfC20Straggler(t *testing.T, res *vfResult, suite string, before int, from 
 	synctest.Wait()
 }
 
+// vfC20AbandonedQueuedUpdate: an UpdateKeys call waits behind an unacknowledged KeyUpdate and its caller gives up (the
+// context expires) before its turn comes. The update that was never sent must leave no trace: the next UpdateKeys
+// succeeds only when the peer really took it, and what is written afterwards is delivered.
+func vfC20AbandonedQueuedUpdate(t *testing.T, res *vfResult, idx int) {
+	res.Eval(1)
+	suite := []string{"13-GCM128", "13-CHACHA", "13-GCM256"}[idx%3]
+	from := []string{"c", "s"}[(idx/3)%2]
+	id := fmt.Sprintf("abandoned-queued-update|%s|from=%s", suite, from)
+	replay := map[string]any{"abandoned": idx}
+	cfg := vfBaseCfg(vfSuiteByName(suite), "ecdsa")
+	cfg.CVer, cfg.SVer, cfg.HelloVerify = "13", "13", false
+	co, so := cfg.Options(nil, nil)
+	n := vfNewNet()
+	p, err := vfNewPair(n, co, so)
+	if err != nil {
+		res.Count("config_rejected", 1)
+
+		return
+	}
+	if ce, se := p.Handshake(time.Minute); ce != nil || se != nil {
+		p.Close()
+		synctest.Wait()
+
+		return
+	}
+	p.C.StartPump()
+	p.S.StartPump()
+	time.Sleep(3 * time.Second)
+	synctest.Wait()
+	x, y := vfSideOf(p, from)
+	var mu sync.Mutex
+	dark := true
+	n.SetOnSend(func(n *vfNet, w *vfWire) {
+		mu.Lock()
+		d := dark
+		mu.Unlock()
+		if w.From == y.Name && d {
+			return // the peer's ACKs are lost for a while
+		}
+		n.Deliver(w.Dst, w.Data, vfAddrOf(w.From))
+	})
+	first := make(chan error, 1)
+	go func() {
+		ctx, cancel := context.WithTimeout(context.Background(), time.Minute)
+		defer cancel()
+		first <- x.Conn.UpdateKeys(ctx, KeyUpdateOptions{})
+	}()
+	synctest.Wait()
+	ctx2, cancel2 := context.WithTimeout(context.Background(), 100*time.Millisecond)
+	err2 := x.Conn.UpdateKeys(ctx2, KeyUpdateOptions{}) // queued behind the first, abandoned
+	cancel2()
+	mu.Lock()
+	dark = false
+	mu.Unlock()
+	err1 := <-first
+	res.NonTrivial(fmt.Sprintf("%s/%d", id, idx))
+	res.Count("abandoned_queued_update_cases", 1)
+	if err1 != nil || err2 == nil {
+		res.Count("abandoned_queued_update_not_as_scripted", 1)
+		res.Seen("abandoned_queued_update_scripts", fmt.Sprintf("%s: first=%v second=%v", id, err1, err2))
+		p.Close()
+		synctest.Wait()
+
+		return
+	}
+	ctx3, cancel3 := context.WithTimeout(context.Background(), 30*time.Second)
+	err3 := x.Conn.UpdateKeys(ctx3, KeyUpdateOptions{})
+	cancel3()
+	pl := []byte(fmt.Sprintf("c20-after-abandoned-%d", idx))
+	_, werr := x.Conn.Write(pl)
+	time.Sleep(5 * time.Second)
+	synctest.Wait()
+	got := vfHasPayload(y.ReadsSnapshot(), pl)
+	switch {
+	case err3 == nil && werr == nil && !got:
+		res.Violate("C20:payload-lost-after-successful-update:abandoned-queued-update",
+			fmt.Sprintf("%s: an UpdateKeys that was abandoned while queued, then UpdateKeys returned nil (sender at write epoch %d, peer at read epoch %d) and the payload written afterwards was never delivered", id, vfCommon(x.Conn).LocalEpoch(), vfCommon(y.Conn).RemoteEpoch()), replay)
+	case err3 != nil:
+		res.Count("abandoned_queued_update_third_failed", 1)
+	default:
+		res.Count("abandoned_queued_update_delivered", 1)
+	}
+	n.SetOnSend(nil)
+	p.Close()
+	synctest.Wait()
+}
+
 func vfC20Cases() []vfC20Case {
 	var out []vfC20Case
 	idx := 0
@@ -668,6 +755,7 @@ func TestVF_C20(t *testing.T) {
 		sgs = append(sgs, sg{"13-CHACHA", 65536 + 300, "s"}, sg{"13-GCM256", 2*65536 + 5, "c"}, sg{"13-GCM256", 65535, "s"})
 	}
 	vfBubbles(t, len(sgs), func(t *testing.T, i int) { vfC20Straggler(t, res, sgs[i].suite, sgs[i].before, sgs[i].from) })
+	vfBubbles(t, 6, func(t *testing.T, i int) { vfC20AbandonedQueuedUpdate(t, res, i) })
 	// real scheduler (race detector build): no injected faults, more writers
 	nr := vfPick(24, 400)
 	vfParallel(nr, func(_, i int) {
